@@ -59,18 +59,27 @@ Theorem C09_dijkstra_correct : forall Q qempty qpush qpop content qinv nbrs w gt
 Proof. exact dijkstra_correct. Qed.
 Print Assumptions C09_dijkstra_correct.
 
-(* (shortest_path) for every mesh graph, weight mode with non-negative weights, start vertex and collection of targets
-   each connected to the start: the call succeeds and maps every target to an edge path from the start to it
-   (begins at start, ends at the target, consecutive vertices joined by a mesh edge) of minimum total weight *)
+(* (shortest_path) for every mesh graph, weight mode with non-negative weights, start vertex and collection of target
+   vertices: the call succeeds and maps EACH requested target that is connected to the start to an edge path from the
+   start to it (begins at start, ends at the target, consecutive vertices joined by a mesh edge) of minimum total weight,
+   and each target that is not connected to the empty list *)
 Theorem C09_shortest_path : forall Q qempty qpush qpop content qinv,
   pq_contract Q qempty qpush qpop content qinv ->
   forall m ws, mesh_ok m ws = true ->
   forall start, is_vertex m start = true ->
-  forall targets, (forall t, In t targets -> exists p', valid_path m start t p' = true) ->
+  forall targets, forallb (is_vertex m) targets = true ->
   exists l, shortest_path Q qempty qpush qpop m ws start targets = Ok l
-            /\ Forall2 (fun t tp => fst tp = t /\ optimal_path m ws start t (snd tp)) (dedup targets) l.
+            /\ Forall2 (fun t tp => fst tp = t /\ target_answer m ws start t (snd tp)) (dedup targets) l.
 Proof. exact shortest_path_correct. Qed.
 Print Assumptions C09_shortest_path.
+
+(* a target given singly is accepted as a Python int and as a numpy integer (the ids mouette hands out), and the call
+   is then the call on the one-element collection *)
+Theorem C09_single_target_forms : (forall k, single_accepts k = true) /\
+  forall Q qempty qpush qpop m ws start k t,
+    shortest_path1 Q qempty qpush qpop m ws start k t = shortest_path Q qempty qpush qpop m ws start [t].
+Proof. exact single_target_forms_ok. Qed.
+Print Assumptions C09_single_target_forms.
 
 (* (vertex set) for every non-empty collection of vertices at least one of which is connected to the start - one-element
    collections, duplicates and collections containing the start included - the call returns a member of the set and
@@ -101,9 +110,9 @@ Print Assumptions C09_border.
 (* the same three statements for the functions the correspondence batches evaluate (the heapq instance) *)
 Theorem C09_executed_model : forall m ws start,
   mesh_ok m ws = true -> is_vertex m start = true ->
-  (forall targets, (forall t, In t targets -> exists p', valid_path m start t p' = true) ->
+  (forall targets, forallb (is_vertex m) targets = true ->
      exists l, run_sp m ws start targets = Ok l
-               /\ Forall2 (fun t tp => fst tp = t /\ optimal_path m ws start t (snd tp)) (dedup targets) l) /\
+               /\ Forall2 (fun t tp => fst tp = t /\ target_answer m ws start t (snd tp)) (dedup targets) l) /\
   (forall T, forallb (is_vertex m) T = true -> (exists t0 p0, In t0 T /\ valid_path m start t0 p0 = true) ->
      exists ind p, run_set m ws start T = Ok (ind, p) /\ nearest m ws start T ind p) /\
   (border m <> [] -> forallb (is_vertex m) (border m) = true ->
